@@ -39,6 +39,10 @@ pub enum Op {
     AddReader { r: u16 },
     AddRegionDb { r: u16 },
     SpawnBg,
+    /// a background task that fails at once, collected with sync_bg_tasks() right away
+    FailingBgThenSync,
+    /// sync_bg_tasks(): wakes and joins every pending background task
+    SyncBg,
     DropHolder { i: u16 },
     /// drops every plain Database handle; Readers / region.db() references keep the instance open
     DropDbHandles,
@@ -100,7 +104,9 @@ fn op_strategy() -> BoxedStrategy<Op> {
         2 => Just(Op::AddClone),
         3 => any::<u16>().prop_map(|r| Op::AddReader { r }),
         2 => any::<u16>().prop_map(|r| Op::AddRegionDb { r }),
-        1 => Just(Op::SpawnBg),
+        2 => Just(Op::SpawnBg),
+        1 => Just(Op::FailingBgThenSync),
+        1 => Just(Op::SyncBg),
         6 => any::<u16>().prop_map(|i| Op::DropHolder { i }),
         1 => Just(Op::DropDbHandles),
         6 => min_sel().prop_map(|min| Op::Open { via: Via::Thread, min }),
@@ -275,6 +281,8 @@ struct St {
     model: BTreeMap<String, Vec<u8>>,
     dirty: bool,
     bg_pending: bool,
+    /// background tasks of the instance that have started and not yet returned
+    bg_running: std::sync::Arc<std::sync::atomic::AtomicUsize>,
     wc: usize,
 }
 
@@ -347,6 +355,7 @@ fn run_case(case: &Case, obs: &mut Obs) -> Result<(), String> {
         model: BTreeMap::new(),
         dirty: false,
         bg_pending: false,
+        bg_running: Default::default(),
         wc: 0,
     };
     for (i, op) in case.ops.iter().enumerate() {
@@ -410,12 +419,37 @@ fn run_case(case: &Case, obs: &mut Obs) -> Result<(), String> {
             }
             Op::SpawnBg => {
                 if let Some(db) = st.any_db() {
-                    db.run_bg(|db| {
+                    let running = st.bg_running.clone();
+                    running.fetch_add(1, std::sync::atomic::Ordering::SeqCst);
+                    db.run_bg(move |db| {
                         db.bg_sleep(Duration::from_secs(3600));
-                        db.flush().map(|_| ())
+                        let r = db.flush().map(|_| ());
+                        running.fetch_sub(1, std::sync::atomic::Ordering::SeqCst);
+                        r
                     });
                     st.bg_pending = true;
                     obs.label("holder:bg-task");
+                }
+            }
+            Op::FailingBgThenSync => {
+                // only with no other task pending: sync_bg_tasks() stops at the first failed task
+                if !st.bg_pending
+                    && let Some(db) = st.any_db()
+                {
+                    db.run_bg(|_| Err(rawdb::Error::RegionNotFound));
+                    let _ = db.sync_bg_tasks();
+                    obs.label("bg-task-failed-and-was-collected");
+                }
+            }
+            Op::SyncBg => {
+                if let Some(db) = st.any_db() {
+                    let _ = db.sync_bg_tasks();
+                    let n = st.bg_running.load(std::sync::atomic::Ordering::SeqCst);
+                    if n != 0 {
+                        return Err(format!("{ctx}: sync_bg_tasks() returned while {n} background task(s) of the instance are still running"));
+                    }
+                    st.bg_pending = false;
+                    obs.label("sync_bg_tasks");
                 }
             }
             Op::DropHolder { i } => {
@@ -437,6 +471,14 @@ fn run_case(case: &Case, obs: &mut Obs) -> Result<(), String> {
                 }
                 let h = st.holders.remove(k);
                 drop(h);
+                if st.holders.is_empty() {
+                    let n = st.bg_running.load(std::sync::atomic::Ordering::SeqCst);
+                    if n != 0 {
+                        return Err(format!(
+                            "{ctx}: the last handle of the instance is gone but {n} of its background task(s) are still running (the instance is not closed; they would outlive its lock)"
+                        ));
+                    }
+                }
             }
             Op::DropDbHandles => {
                 // only when something else keeps the instance open (closing is DropHolder's job)
@@ -612,6 +654,8 @@ impl Prop for P {
             "reopen",
             "reopen:process-first",
             "closed-with-bg-task",
+            "bg-task-failed-and-was-collected",
+            "sync_bg_tasks",
         ]
     }
 
